@@ -5,6 +5,7 @@ import facts
 from astlib import calls, find_fn, fns_in_file, last, method_calls, render, site, strip, walk
 from pathcond import conditions_to, enumerate_paths, fact_str, facts_str, find_path
 import reportflow
+import a10
 import c03
 import dropflow
 
@@ -437,6 +438,37 @@ def rule_tables(ctx):
             ctx.check(R, "%s::%s/insert(%s)" % (qual, fname, which), guarded or used, "guarded=%s result-used=%s: a second definition with the same name silently replaces the first (which one survives depends on hash order)" % (guarded, used), site(file, i))
 
 
+def rule_duplicate_label(ctx, R="C02.13"):
+    ctx.rule(R, "the `duplicated function or template` error is located at the definition that is dropped, in the file being added (so it is displayed whenever that file is a user input): its primary label is (the dropped definition's location, the file id of the file being processed)")
+    for file, fname in ((TL, "new"), (MG, "add_definitions")):
+        fn = find_fn(file, fname)
+        if fn is None:
+            ctx.missing(R, "%s::%s" % (file, fname))
+            continue
+        prim = [m for m in method_calls(fn["body"], "add_primary")]
+        if len(prim) != 1 or len(prim[0]["args"]) != 3:
+            ctx.missing(R, "%s/one-primary-label" % fname, "add_primary x%d" % len(prim))
+            continue
+        a0, a1 = strip(prim[0]["args"][0]), strip(prim[0]["args"][1])
+        # the file id: a parameter of the function or the variable of the loop over (file id, definitions)
+        params = [i["pat"]["name"] for i in fn["sig"]["inputs"] if not i.get("self") and i["pat"]["k"] == "PIdent"]
+        loop_ids = set()
+        for c in conditions_to(fn["body"], prim[0]) or []:
+            if c[0] == "loop" and c[2] is not None and c[2]["k"] == "PTuple" and c[2]["elems"] and c[2]["elems"][0]["k"] == "PIdent":
+                loop_ids.add(c[2]["elems"][0]["name"])
+        id_ok = a1["k"] == "Path" and (a1["path"] in loop_ids or (a1["path"] in params and "file" in a1["path"]))
+        # the location: `<meta>.file_location()` of a meta bound from the definition being added
+        loc_ok = False
+        if a0["k"] == "MethodCall" and a0["method"] in ("file_location", "location") and strip(a0["recv"])["k"] == "Path":
+            mname = strip(a0["recv"])["path"]
+            for n in walk(fn["body"]):
+                if n["k"] in ("PStruct",) and last(n["path"]) in ("Function", "Template"):
+                    b_, _r = a10.pattern_bindings(n)
+                    if b_.get("meta") == mname:
+                        loc_ok = True
+        ctx.check(R, "%s/duplicate-error-located-at-the-dropped-definition" % fname, id_ok and loc_ok, "primary label (%s, %s): file id from the file being added=%s, location from the definition being added=%s" % (render(a0)[:40], render(a1)[:30], id_ok, loc_ok), site(file, prim[0]))
+
+
 def rule_drop_is_error(ctx):
     R = "C02.7"
     ctx.rule(R, "every report that stands for `this definition / file could not be processed and was dropped` (the `*Error` variants of the lifting error enums and the parser's error structs) is built with Report::error")
@@ -578,6 +610,7 @@ def run(ctx):
     rule_add_files(ctx)
     rule_desugar(ctx)
     rule_tables(ctx)
+    rule_duplicate_label(ctx)
     c03.rule_exit_status(ctx, "C02.6")
     dropflow.rule_consumed(ctx, "C02.10")
     import c05
